@@ -20,7 +20,7 @@ from __future__ import annotations
 import ast
 import copy
 
-PURE_BUILTINS = {'callable', 'isinstance', 'len', 'str', 'repr', 'int', 'float', 'bool', 'type', 'hasattr', 'id', 'print'}
+PURE_BUILTINS = {'AssertionError', 'ValueError', 'RuntimeError', 'TypeError', 'KeyError', 'NotImplementedError', 'callable', 'isinstance', 'len', 'str', 'repr', 'int', 'float', 'bool', 'type', 'hasattr', 'id', 'print'}
 MAX_UNROLL = 16
 
 
@@ -132,15 +132,25 @@ def _fold(fn: ast.AST) -> None:
                 blk[k] = ast.copy_location(ast.Assign(targets=[tgt], value=v, lineno=st.lineno), st)
 
 
-def _impure_between(sts: list[ast.stmt], field: str) -> bool:
-    """A call that is not a pure builtin, or a store to an attribute named `field`."""
+def _root_name(e: ast.AST) -> str | None:
+    while isinstance(e, (ast.Attribute, ast.Subscript, ast.Call)):
+        e = e.func if isinstance(e, ast.Call) else e.value
+    return e.id if isinstance(e, ast.Name) else None
+
+
+def _impure_between(sts: list[ast.stmt], base: str) -> bool:
+    """Something in `sts` may change what `<base>.<attr>` / `<base>[k]` denotes: a store through `base`, or a call
+    that can reach `base` (it is the receiver or an argument), pure builtins excepted."""
     for st in sts:
         for n in ast.walk(st):
             if isinstance(n, ast.Call):
-                if not (isinstance(n.func, ast.Name) and n.func.id in PURE_BUILTINS):
+                if isinstance(n.func, ast.Name) and n.func.id in PURE_BUILTINS:
+                    continue
+                mentioned = any(isinstance(x, ast.Name) and x.id == base for part in [n.func] + list(n.args) + [k.value for k in n.keywords] for x in ast.walk(part))
+                if mentioned:
                     return True
-            if isinstance(n, ast.Attribute) and isinstance(n.ctx, (ast.Store, ast.Del)):
-                return True       # any attribute store: `field` may be a property over another attribute
+            if isinstance(n, (ast.Attribute, ast.Subscript)) and isinstance(n.ctx, (ast.Store, ast.Del)) and _root_name(n) == base:
+                return True
             if isinstance(n, (ast.Await, ast.Yield, ast.YieldFrom)):
                 return True
     return False
@@ -175,10 +185,13 @@ def mutable_attrs(trees: list[ast.Module]) -> set[str]:
     return out
 
 
-def _self_field(e: ast.expr) -> ast.Attribute | None:
+def _self_field(e: ast.expr) -> ast.expr | None:
+    """A copyable source: <name>.<attr>, cast(T, <name>.<attr>) or <name>[<constant>]."""
     if isinstance(e, ast.Call) and isinstance(e.func, ast.Name) and e.func.id == 'cast' and len(e.args) == 2 and not e.keywords:
         e = e.args[1]
-    if isinstance(e, ast.Attribute) and isinstance(e.value, ast.Name) and e.value.id == 'self':
+    if isinstance(e, ast.Attribute) and isinstance(e.value, ast.Name):
+        return e
+    if isinstance(e, ast.Subscript) and isinstance(e.value, ast.Name) and isinstance(e.slice, ast.Constant):
         return e
     return None
 
@@ -192,10 +205,14 @@ def _copy_prop(block: list[ast.stmt], mutable: set[str], in_init: bool) -> None:
         if fld is not None:
             v = st.targets[0].id
             j = i + 1
-            while j < len(block) and v not in _stores(block[j]) and 'self' not in _stores(block[j]):
+            base = fld.value.id  # type: ignore[attr-defined]
+            if base == v:
+                i += 1
+                continue
+            while j < len(block) and v not in _stores(block[j]) and base not in _stores(block[j]):
                 j += 1
-            frozen = not in_init and '*' not in mutable and fld.attr not in mutable
-            while not frozen and j > i + 1 and _impure_between(block[i + 1:j], fld.attr):
+            frozen = isinstance(fld, ast.Attribute) and not in_init and '*' not in mutable and fld.attr not in mutable
+            while not frozen and j > i + 1 and _impure_between(block[i + 1:j], base):
                 j -= 1    # longest pure prefix: later reads keep using the local, which is still assigned
             seg = block[i + 1:j]
             if seg:
